@@ -36,16 +36,37 @@ func main() {
 	out := flag.String("out", "", "output directory")
 	pkgs := flag.String("pkgs", "db,audit,server,client/setec", "packages (relative dirs)")
 	gocmd := flag.String("go", "go1.26.8", "go command")
+	extra := flag.String("extra", "golang.org/x/sync/singleflight", "dependency packages to instrument too (import paths)")
 	flag.Parse()
 	if *out == "" {
 		fatal("missing -out")
 	}
 	rels := strings.Split(*pkgs, ",")
+	// dependency packages are located through go list and overlaid in place
+	// (the module cache is not edited: the overlay maps its paths to copies)
+	extraDirs := map[string]string{}
+	if *extra != "" {
+		for _, ip := range strings.Split(*extra, ",") {
+			c := exec.Command(*gocmd, "list", "-tags", "verif", "-f", "{{.Dir}}", ip)
+			c.Dir = *repo
+			c.Stderr = os.Stderr
+			ob, err := c.Output()
+			if err != nil {
+				fatal("go list %s: %v", ip, err)
+			}
+			extraDirs[ip] = strings.TrimSpace(string(ob))
+			rels = append(rels, ip)
+		}
+	}
 
 	// Export data for all dependencies.
 	args := []string{"list", "-export", "-deps", "-tags", "verif", "-f", "{{.ImportPath}}\t{{.Export}}"}
 	for _, r := range rels {
-		args = append(args, "./"+r)
+		if _, ok := extraDirs[r]; ok {
+			args = append(args, r)
+		} else {
+			args = append(args, "./"+r)
+		}
 	}
 	cmd := exec.Command(*gocmd, args...)
 	cmd.Dir = *repo
@@ -71,11 +92,16 @@ func main() {
 	})
 
 	overlay := map[string]string{}
+	extraOut := map[string]string{}
 	stats := map[string]int{}
 	ctxt := build.Default
 	ctxt.BuildTags = append(ctxt.BuildTags, "verif")
 	for _, rel := range rels {
 		dir := filepath.Join(*repo, rel)
+		importPath := "github.com/tailscale/setec/" + rel
+		if d, ok := extraDirs[rel]; ok {
+			dir, importPath = d, rel
+		}
 		ents, err := os.ReadDir(dir)
 		if err != nil {
 			fatal("%v", err)
@@ -109,7 +135,7 @@ func main() {
 			Selections: map[*ast.SelectorExpr]*types.Selection{},
 		}
 		conf := types.Config{Importer: imp}
-		if _, err := conf.Check("github.com/tailscale/setec/"+rel, fset, files, info); err != nil {
+		if _, err := conf.Check(importPath, fset, files, info); err != nil {
 			fatal("typecheck %s: %v", rel, err)
 		}
 		for i, f := range files {
@@ -200,8 +226,18 @@ func main() {
 			if err := os.WriteFile(dst, []byte(sb.String()), 0o644); err != nil {
 				fatal("%v", err)
 			}
-			overlay[full] = dst
+			if _, isExtra := extraDirs[rel]; isExtra {
+				// files beneath GOMODCACHE must not be overlaid: the caller
+				// copies the module and replaces it (see extra.json)
+				extraOut[full] = dst
+			} else {
+				overlay[full] = dst
+			}
 		}
+	}
+	eb, _ := json.MarshalIndent(extraOut, "", " ")
+	if err := os.WriteFile(filepath.Join(*out, "extra.json"), eb, 0o644); err != nil {
+		fatal("%v", err)
 	}
 	ob, _ := json.MarshalIndent(map[string]any{"Replace": overlay}, "", " ")
 	if err := os.WriteFile(filepath.Join(*out, "overlay.json"), ob, 0o644); err != nil {
